@@ -364,6 +364,11 @@ def run_solve_and_twin(case, fresh, nvars, names):
     try:
         if case['entry'] == 'solve_period':
             out = ['ret', bool(m.solve_period(start, **kw))]
+        elif case['entry'] == 'iter_periods':
+            pi = m.iter_periods(start=start, end=end)
+            pairs = list(pi)
+            out = ['ret', [lab_id(lab) for _, lab in pairs], [int(t) for t, _ in pairs], [False] * len(pairs),
+                   [type(t).__name__ for t, _ in pairs], int(len(pi))]
         else:
             labels, indexes, solved = m.solve(start=start, end=end, **kw)
             out = ['ret', [lab_id(x) if x is not None else None for x in labels], [int(x) if x is not None else None for x in indexes],
@@ -387,7 +392,7 @@ def run_solve_and_twin(case, fresh, nvars, names):
     obs['ids'] = ids
     # the twin: a loop of solve_t over the positions the statement names
     exp = expected_range(case)
-    if exp is not None and exp[0] == 'range':
+    if exp is not None and exp[0] == 'range' and case['entry'] != 'iter_periods':
         tw = fresh()
         flags, tout = [], None
         rng_ = [exp[1]] if case['entry'] == 'solve_period' else range(exp[1], exp[2] + 1)
@@ -422,11 +427,11 @@ def c_scase(case, obs):
         xout = '(Ret (1%%nat, [(%s, 0, %s)]))' % (lib.cZ(spec_id(case, ids, case['start'])), lib.cbool(out[1]))
     else:
         vis = ['(%s, %s, %s)' % (lib.cZ(l), lib.cZ(t), lib.cbool(b)) for l, t, b in zip(out[1], out[2], out[3]) if t is not None]
-        xout = '(Ret (%d%%nat, %s))' % (len(out[1]), lib.clist(vis))
+        xout = '(Ret (%d%%nat, %s))' % (out[5] if case['entry'] == 'iter_periods' else len(out[1]), lib.clist(vis))
     tbl = lib.clist('(%s, %s)' % (lib.cZ(int(k)), c_locres(v)) for k, v in sorted(obs['loc'].items(), key=lambda kv: int(kv[0])))
     return '(mkSCase %s %s %s %d%%nat %s %s %d%%nat %s %s %s %s %s)' % (
         c_scripts(case['scripts']), c_desc(case), c_opts(case['opts']), SPAN_KIND[case['span_type']],
-        lib.clist(lib.cZ(i) for i in ids), tbl, 1 if case['entry'] == 'solve_period' else 0,
+        lib.clist(lib.cZ(i) for i in ids), tbl, {'solve_period': 1, 'iter_periods': 2}.get(case['entry'], 0),
         opt(case['start']), opt(case['end']),
         c_state(case['vals'], case['status'], case['iters'], []),
         c_state(obs['vals'], obs['status'], obs['iters'], obs['log']), xout)
